@@ -134,7 +134,7 @@ class C01(Property):
         "independent covered-cell set under the minimal-image metric -> count, volume (sum of cell volumes), per-axis half-cell "
         "bound on the centre, position inside the bounds on periodic axes. Non-trivial = >= 2 droplets, a droplet straddling a "
         "periodic face, anisotropy >= 1.5, or a symmetric grid; distinct = distinct spec hash. Exhaustive companion ('corner-sweep'): one "
-        "droplet at every sub-cell offset (7 per axis) and radius (6) around the corner of fully / partly periodic 2-D and 3-D boxes with "
+        "droplet at every sub-cell offset (7 per axis) and radius (up to 8) around the corner of fully / partly periodic 2-D and 3-D boxes with "
         "unequal cell counts and spacings."
     )
     assumptions = [
@@ -157,8 +157,10 @@ class C01(Property):
             {"origin": [-1.5, 2.25], "shape": [5, 8], "spacing": [1.0, 0.75], "periodic": [True, True]},
             {"origin": [0.3, -7.0], "shape": [7, 4], "spacing": [0.5, 1.25], "periodic": [True, True]},
             {"origin": [2.0, -1.0, 0.5], "shape": [4, 5, 6], "spacing": [1.0, 0.8, 1.3], "periodic": [True, True, True]},
+            {"origin": [0.0, 0.0, 0.0], "shape": [8, 7, 9], "spacing": [1.0, 1.0, 1.0], "periodic": [True, True, True]},
         ],
         "thorough": [
+            {"origin": [0.0, 0.0, 0.0], "shape": [8, 7, 9], "spacing": [1.0, 1.0, 1.0], "periodic": [True, True, True]},
             {"origin": [-1.5, 2.25], "shape": [5, 8], "spacing": [1.0, 0.75], "periodic": [True, True]},
             {"origin": [0.3, -7.0], "shape": [7, 4], "spacing": [0.5, 1.25], "periodic": [True, True]},
             {"origin": [0.0, 0.0], "shape": [12, 40], "spacing": [1.0, 1.0], "periodic": [True, True]},
@@ -169,7 +171,7 @@ class C01(Property):
         ],
     }
     CORNER_OFFSETS = [-1.1, -0.6, -0.3, 0.0, 0.2, 0.45, 0.9]
-    CORNER_RADII = [0.55, 0.75, 0.95, 1.2, 1.45, 1.8]
+    CORNER_RADII = [0.55, 0.75, 0.95, 1.2, 1.45, 1.8, 2.05, 2.4]
 
     def exhaustive_jobs(self, tier):
         return [{"domain": "corner-sweep", "grid": g, "radius_factor": rf} for g in self.CORNER_GRIDS[tier] for rf in self.CORNER_RADII]
